@@ -249,6 +249,69 @@ def formulas_reparse(rep):
     rep.sample({'exported_formula_text': acc[0]['r']})
 
 
+LONG_LITERALS = ['3.14159265', '1234.5678', '2.718281828', '0.1234567891', '123456789', '1.0000001',
+                 '99999.99', '1E-7', '1.2345678E+10', '0.000123456789', '1234567.125', '007', '1.50',
+                 '15E-1', '1E+3', '.25', '2.5E-10', '12345678901234', '0.30000000000000004']
+
+
+def _literal_shard(lits):
+    """A numeric literal inside a formula: the exported text reads back to the same value,
+    and exporting again gives the same text."""
+    f = impl.F()
+    out = []
+    for lit in lits:
+        for ctx in ('=1*%s', '=SUM(%s,0)', '=-%s'):
+            text = ctx % lit
+            try:
+                b = f.Parser().ast(text)[1]
+                v1 = V.alpha(b.compile()())
+                expr = b[-1].get_expr
+                b2 = f.Parser().ast('=' + expr)[1]
+                v2 = V.alpha(b2.compile()())
+                expr2 = b2[-1].get_expr
+            except BaseException as ex:  # noqa
+                if isinstance(ex, (KeyboardInterrupt, SystemExit)):
+                    raise
+                out.append((text, 'raises', type(ex).__name__, None))
+                continue
+            if V.show(v1) != V.show(v2) or (v1.get('k') == 'f' and v1['x'] != v2.get('x')):
+                out.append((text, 'exported-literal-reads-back-to-another-value', expr,
+                            '%s -> %s' % (V.show(v1), V.show(v2))))
+            elif expr2 != expr:
+                out.append((text, 'second-export-differs', expr, expr2))
+            else:
+                out.append((text, None, expr, None))
+        # the same through the model: to_dict -> from_dict
+        try:
+            m = f.ExcelModel().from_dict({'A1': 2, 'B1': '=A1*%s' % lit})
+            a = V.alpha(m.calculate()['B1'])
+            m2 = f.ExcelModel().from_dict(json.loads(json.dumps(m.to_dict())))
+            b_ = V.alpha(m2.calculate()['B1'])
+            if V.show(a) != V.show(b_) or (a.get('k') == 'f' and a['x'] != b_.get('x')):
+                out.append(('B1==A1*%s' % lit, 'value-after-json-round-trip', V.show(a), V.show(b_)))
+        except BaseException as ex:  # noqa
+            if isinstance(ex, (KeyboardInterrupt, SystemExit)):
+                raise
+    return out
+
+
+def literal_export(rep):
+    from ..tlc import run_tlc, parse_obl
+    r = run_tlc('NumLit', 'NumLit.cfg')
+    rep.add_tlc(r, 'NumLit: prefix tree of literal strings (their values are what an export must keep)')
+    lits = sorted({''.join(chr(c) for c in o['s']) for o in parse_obl(r['out'])
+                   if abs(o['v'].get('e', 0)) <= 290}) + LONG_LITERALS
+    for part in pmap(_literal_shard, shards(lits, NCPU * 2), chunk=1):
+        for text, kind, expr, det in part:
+            rep.count()
+            rep.distinct('lit:' + text)
+            if kind:
+                rep.violation({'kind': kind, 'text': text},
+                              {'formula': text, 'exported_text': expr, 'detail': det,
+                               'how': 'Parser().ast(text): get_expr re-parsed and evaluated; the same through '
+                                      'to_dict -> JSON -> from_dict'})
+
+
 def main():
     rep = Report(PID)
     wd = workdir('c09')
@@ -256,6 +319,7 @@ def main():
         codec(rep)
         workbooks(rep, wd)
         formulas_reparse(rep)
+        literal_export(rep)
         rep.cov['rule'] = ('all strings over two adversarial alphabets stored as text '
                            'constants; seeded workbooks (names, arrays, cross-sheet/book '
                            'references, every constant kind) round-tripped through JSON, '
